@@ -38,6 +38,8 @@ class Module:
         # every analysis works on the normal form (single-use temporaries inlined, sa/normalise.py)
         from sa.normalise import normalise
         self.n_inlined = normalise(self.tree)
+        from sa.normalise import renumber_lines
+        renumber_lines(self.tree)  # lineno = program order of the normal form; the source line is kept in _src_line
         for parent in ast.walk(self.tree):
             for child in ast.iter_child_nodes(parent):
                 child._parent = parent
@@ -88,7 +90,7 @@ class FuncInfo:
         return [x.arg for x in a.posonlyargs + a.args]
 
     def __repr__(self):
-        return f"<Func {self.qual}@{self.node.lineno}>"
+        return f"<Func {self.qual}@{getattr(self.node, '_src_line', self.node.lineno)}>"
 
 
 class Rule:
@@ -122,7 +124,7 @@ class Rule:
 
     @property
     def loc(self):
-        return f"{self.module.rel}:{self.node.lineno}"
+        return f"{self.module.rel}:{getattr(self.node, '_src_line', self.node.lineno)}"
 
     def __repr__(self):
         return f"<Rule {self.role} p={self.precedence} {self.loc}>"
@@ -586,7 +588,7 @@ class Index:
                         try:
                             prec = ast.literal_eval(k.value)
                         except ValueError:
-                            raise AnalysisError(f"non-literal precedence at {fi.module.rel}:{dec.lineno}")
+                            raise AnalysisError(f"non-literal precedence at {fi.module.rel}:{getattr(dec, '_src_line', dec.lineno)}")
                     elif k.arg == "cond":
                         cond = k.value
             return ("rule", prec, cond)
@@ -828,7 +830,7 @@ class Index:
         return [f for f in self.funcs_by_name.get(name, []) if not top_level or (f.parent is None and f.cls is None)]
 
     def loc(self, m, node):
-        return f"{m.rel}:{getattr(node, 'lineno', 0)}"
+        return f"{m.rel}:{getattr(node, '_src_line', getattr(node, 'lineno', 0))}"
 
     def operator_classes(self):
         return self.subclasses("LinearOperator")
